@@ -33,13 +33,17 @@ Ev == Traces[tid][l]
 \* references of this event for which no stream datum was emitted during the call (postponed or datum missing)
 Deferred == {Ev.refs[i].id : i \in 1..Len(Ev.refs)} \ {Ev.out[j].id : j \in {j \in 1..Len(Ev.out) : Ev.out[j].t = "stream_datum"}}
 
+\* datum documents whose datum_kwargs were found edited after this call (for the documents unpacked from a page: after
+\* the whole page): their cached copies share the nested dict with the caller
+Aliased == {Ev.inp[i].n : i \in {i \in 1..Len(Ev.inp) : Ev.inp[i].t = "datum"}}
+
 Action ==
     \/ Ev.op = "start" /\ DoStart
     \/ Ev.op = "descriptor" /\ DoDescriptor(Ev.d) /\ phase' = "open"
     \/ Ev.op = "resource" /\ UNCHANGED phase /\ \E mm \in BothModes : DoResource(Ev.r, KwSet(Ev.kw), Ev.hdf5, mm)
-    \/ Ev.op = "datum" /\ UNCHANGED phase /\ \E mm \in BothModes : DoDatum(Ev.id, Ev.r, Ev.frame, KwSet(Ev.kw), mm)
-    \/ Ev.op = "event" /\ UNCHANGED phase /\ \E fm \in BothModes : DoEvent(Ev.d, Ev.s, Ev.val, Ev.refs, fm, Deferred)
-    \/ Ev.op = "stop" /\ \E fm \in BothModes : DoStop(fm)
+    \/ Ev.op = "datum" /\ UNCHANGED phase /\ DoDatum(Ev.id, Ev.r, Ev.frame, KwSet(Ev.kw))
+    \/ Ev.op = "event" /\ UNCHANGED phase /\ \E fm \in BothModes : DoEvent(Ev.d, Ev.s, Ev.val, Ev.refs, fm, Deferred, Aliased)
+    \/ Ev.op = "stop" /\ \E fm \in BothModes : DoStop(fm, Aliased)
     \/ Ev.op = "stream_resource" /\ UNCHANGED <<phase, sres>> /\ \E mm \in BothModes : DoStreamResource(Ev.r, Ev.k, KwSet(Ev.kw), Ev.hdf5, mm)
     \/ Ev.op = "stream_datum" /\ UNCHANGED phase /\ DoStreamDatum(Ev.id, Ev.r, Ev.k, Ev.d, Ev.a, Ev.b, Ev.sa, Ev.sb)
 
